@@ -35,6 +35,14 @@ CLAIMED["C02"] = {
     "technique": "panic-edge census over the instance call graph with guard-fact discharge + early-exit chain extraction + pointer normal form",
 }
 
+CLAIMED["C10"] = {
+    "category": "other",
+    "text": "Totality of Multiboot2Header::load and calc_checksum (panic-edge census, every site discharged); early-exit chain of load with the exact guards in dominance order (null; C14's memory chain over the slice of the raw declared length; magic != 0xE85250D6; checksum predicate); ring normal form mod 2^32 shows calc_checksum = -(m + a + l), the load predicate compares exactly that with the stored checksum, and set_size stores length and recomputed checksum - for all 2^32 x 2 x 2^32 arguments.",
+    "design_ref": "DESIGN.md §4 C10, §3.14",
+    "note": TB + "; architecture word assumed to hold a defined value (hypothesis of the property); relies on C14",
+    "technique": "panic-edge census + early-exit chain extraction + ring normal form in Z/2^32 over MIR terms",
+}
+
 PENDING = "check not yet built in this session (machinery under construction; see DESIGN.md §9 build order) - not claimed until its premises run, pass on the repaired tree and fire on seeded breaks"
 NOT_APPLICABLE = {("C%02d" % i): PENDING for i in range(1, 21)}
 
